@@ -120,3 +120,74 @@ def twin(build, mutate):
         mutate(t)
     except Exception:  # noqa
         pass
+
+
+# ---------------------------------------------------------------------------------------------------------------------
+# "decode twice" probe: what a decoder returns must be NEW objects.  The first result of the decode is trashed - every
+# mutable thing reachable from it is changed in place through public attributes (byte fields re-valued, lists grown,
+# bytearrays overwritten, integer / enum / boolean attributes of library objects flipped) - and the same input is decoded
+# again; the second result is the one the adapter projects.  A decoder that memoises its results, or parts of them (an
+# lru_cache on a helper that builds a PacketId / a byte field / a TLV), hands the trashed object out again.
+# ---------------------------------------------------------------------------------------------------------------------
+def _is_lib(o):
+    return type(o).__module__.startswith("spacepackets")
+
+
+def trash(obj, depth=0, seen=None):
+    import enum
+    seen = set() if seen is None else seen
+    if id(obj) in seen or depth > 6:
+        return
+    seen.add(id(obj))
+    if isinstance(obj, bytearray):
+        for i in range(len(obj)):
+            obj[i] ^= 0xFF
+        return
+    if isinstance(obj, list):
+        for x in list(obj):
+            trash(x, depth + 1, seen)
+        try:
+            obj.append(obj[0] if obj else 0)
+        except Exception:  # noqa
+            pass
+        return
+    if isinstance(obj, dict):
+        for x in list(obj.values()):
+            trash(x, depth + 1, seen)
+        return
+    if isinstance(obj, (tuple, bytes, str, int, float, bool, type(None), enum.Enum)) or not _is_lib(obj):
+        return
+    names = list(getattr(obj, "__dict__", {}).keys())
+    for n in names:
+        try:
+            v = obj.__dict__[n]
+        except Exception:  # noqa
+            continue
+        try:
+            if isinstance(v, enum.Enum):
+                others = [m for m in type(v) if m is not v]
+                if others:
+                    obj.__dict__[n] = others[0]
+            elif isinstance(v, bool):
+                obj.__dict__[n] = not v
+            elif isinstance(v, int):
+                obj.__dict__[n] = v ^ 1
+            elif isinstance(v, bytes) and v:
+                obj.__dict__[n] = bytes(x ^ 0xFF for x in v)
+            elif isinstance(v, str):
+                obj.__dict__[n] = v + "~"
+            else:
+                trash(v, depth + 1, seen)
+        except Exception:  # noqa
+            pass
+
+
+def fresh(decode):
+    """decode() -> trash the result -> decode() again; returns the second result (exceptions of the first run propagate as
+    they would have anyway)."""
+    first = decode()
+    try:
+        trash(first)
+    except Exception:  # noqa
+        pass
+    return decode()
